@@ -235,3 +235,131 @@ Print Assumptions nll_order_irrelevant.
 Theorem js_sym : forall (A : Type) eps (ks : list A) p q, js eps ks p q = js eps ks q p.
 Proof. exact @js_sym_lemma. Qed.
 Print Assumptions js_sym.
+
+(* ------------------------------------------------------------------ the code, translated on every run, is the model *)
+(* Gen/DistributionsGen.v is regenerated from distributions/_measurement_outcome_distribution.py by
+   tr/tr_distributions.py on every run (construct by construct; meaning of the Python building blocks:
+   Stats/DistTrSupport.v).  The theorems below state that the generated definitions, over the exact number
+   structure num_Q, ARE the model functions of Stats/Dist.v that the theorems above are about, on the model's
+   values embedded into the Python values (eraw / edist / eres, Stats/DistGenProofs.v).  [req] is equality of
+   results up to == on the values (Python's sum() adds from the left, the model from the right).
+   [tiny s] is the branch 0 < s < sys.float_info.min of normalize_measurement_outcome_distribution, which the
+   model does not have: the agreement is stated outside it, and what the code does inside it is stated separately. *)
+Require Import OQ.Stats.DistTrSupport OQ.Gen.DistributionsGen OQ.Stats.DistGenProofs.
+Close Scope R_scope.
+Open Scope Q_scope.
+
+Theorem generated_preprocess_is_model : forall r,
+  preprocess_distibution_dict_gen num_Q (eraw r) = eres (preprocess r).
+Proof. exact preprocess_gen_eq. Qed.
+Print Assumptions generated_preprocess_is_model.
+
+(* a key that is neither str nor tuple (here: an int) after a readable prefix: RuntimeError *)
+Theorem generated_preprocess_rejects_other_keys : forall r z v rest,
+  preprocess_distibution_dict_gen num_Q (eraw r ++ (PKInt z, v) :: rest) =
+  match preprocess r with Ok _ => Raise RuntimeError | Err e => Raise (eerr e) end.
+Proof. exact preprocess_gen_other_key. Qed.
+Print Assumptions generated_preprocess_rejects_other_keys.
+
+Theorem generated_is_non_negative_is_model : forall d,
+  is_non_negative_gen num_Q (edist d) = Ret (forallb (fun kv => Qle_bool 0 (snd kv)) d).
+Proof. exact is_non_negative_gen_eq. Qed.
+Print Assumptions generated_is_non_negative_is_model.
+
+Theorem generated_is_key_length_fixed_is_model : forall d,
+  is_key_length_fixed_gen num_Q (edist d) =
+  match d with
+  | [] => Raise IndexError
+  | (k0, _) :: _ => Ret (forallb (fun kv => Nat.eqb (List.length (fst kv)) (List.length k0)) d)
+  end.
+Proof. exact is_key_length_fixed_gen_eq. Qed.
+Print Assumptions generated_is_key_length_fixed_is_model.
+
+(* the model's keys are naturals: the third check always holds on them; on tuples of arbitrary entries it is
+   "every entry is an int >= 0" *)
+Theorem generated_are_keys_is_model : forall d,
+  are_keys_non_negative_integer_tuples_gen num_Q (edist d) = Ret true.
+Proof. exact are_keys_gen_eq. Qed.
+Print Assumptions generated_are_keys_is_model.
+
+Theorem generated_are_keys_on_tuples : forall ts,
+  are_keys_non_negative_integer_tuples_gen num_Q (tupdict ts) = Ret (forallb (fun tv => forallb elt_ok (fst tv)) ts).
+Proof. exact are_keys_gen_tuples. Qed.
+Print Assumptions generated_are_keys_on_tuples.
+
+Theorem generated_is_distribution_is_model : forall d,
+  is_measurement_outcome_distribution_gen num_Q (edist d) = Ret (valid d).
+Proof. exact is_mod_gen_eq. Qed.
+Print Assumptions generated_is_distribution_is_model.
+
+(* outside the model: a negative or non-int tuple entry makes the check False *)
+Theorem generated_is_distribution_bad_entry : forall ts,
+  forallb (fun tv => forallb elt_ok (fst tv)) ts = false ->
+  is_measurement_outcome_distribution_gen num_Q (tupdict ts) = Ret false.
+Proof. exact is_mod_gen_bad_entry. Qed.
+Print Assumptions generated_is_distribution_bad_entry.
+
+Theorem generated_is_normalized_is_model : forall d,
+  is_normalized_gen num_Q (edist d) = Ret (close1 (mass d)).
+Proof. exact is_normalized_gen_eq. Qed.
+Print Assumptions generated_is_normalized_is_model.
+
+Theorem generated_normalize_is_model : forall d, NoDup (map fst d) -> tiny (mass d) = false ->
+  req (normalize_measurement_outcome_distribution_gen num_Q (edist d)) (eres (normalize_dict d)).
+Proof. exact normalize_gen_eq. Qed.
+Print Assumptions generated_normalize_is_model.
+
+Theorem generated_normalize_tiny_total : forall d, tiny (mass d) = true ->
+  normalize_measurement_outcome_distribution_gen num_Q (edist d) = Raise ValueError.
+Proof. exact normalize_gen_tiny. Qed.
+Print Assumptions generated_normalize_tiny_total.
+
+Theorem generated_init_is_model : forall r n, (forall d, preprocess r = Ok d -> tiny (mass d) = false) ->
+  req (MeasurementOutcomeDistribution_init_gen num_Q (eraw r) n) (eres (make_raw r n)).
+Proof. exact init_gen_eq. Qed.
+Print Assumptions generated_init_is_model.
+
+Theorem generated_init_preprocessed_is_model : forall d n, NoDup (map fst d) -> tiny (mass d) = false ->
+  req (MeasurementOutcomeDistribution_init_gen num_Q (edist d) n) (eres (make d n)).
+Proof. exact init_gen_make_eq. Qed.
+Print Assumptions generated_init_preprocessed_is_model.
+
+(* where the model deviates from the code: it normalises a valid dictionary whose total lies in (0, float_min),
+   the code raises ValueError *)
+Theorem generated_init_tiny_total : forall d, NoDup (map fst d) -> valid d = true -> tiny (mass d) = true ->
+  MeasurementOutcomeDistribution_init_gen num_Q (edist d) true = Raise ValueError.
+Proof. exact init_gen_tiny. Qed.
+Print Assumptions generated_init_tiny_total.
+
+Theorem generated_save_keys_is_model : forall d, NoDup (map fst d) ->
+  change_tuple_dict_keys_to_comma_separated_integers_gen num_Q (edist d) = Ret (eraw (save d)).
+Proof. exact save_gen_eq. Qed.
+Print Assumptions generated_save_keys_is_model.
+
+(* keys of one length is the class invariant (every object is built by __init__); the model reads an entry
+   beyond the end of a shorter key as 0 where the code raises IndexError *)
+Theorem generated_subdistribution_is_model : forall qs d,
+  Forall (fun kv => List.length (fst kv) = nsub d) d -> tiny (mass d) = false ->
+  req (MeasurementOutcomeDistribution_subdistribution_gen num_Q (edist d) (map Z.of_nat qs))
+      (eres (fst (subdistribution qs d))).
+Proof. exact sub_gen_eq. Qed.
+Print Assumptions generated_subdistribution_is_model.
+
+Example generated_init_runs :
+  match MeasurementOutcomeDistribution_init_gen num_Q
+          [(PKStr "10,2", 1 # 2); (PKTup [PEInt 0; PEInt 3], 3 # 2)] true with
+  | Ret [(PKTup [PEInt 10; PEInt 2], v1); (PKTup [PEInt 0; PEInt 3], v2)] => v1 == 1 # 4 /\ v2 == 3 # 4
+  | _ => False
+  end /\ tiny (mass [([10; 2]%nat, 1 # 2); ([0; 3]%nat, 3 # 2)]) = false.
+Proof. vm_compute. repeat split; reflexivity. Qed.
+
+Example generated_subdistribution_runs :
+  match MeasurementOutcomeDistribution_subdistribution_gen num_Q
+          (edist [([10; 1; 0]%nat, 1 # 2); ([2; 3; 0]%nat, 1 # 4); ([10; 7; 0]%nat, 1 # 4)]) [2; 0]%Z with
+  | Ret [(PKTup [PEInt 0; PEInt 10], v1); (PKTup [PEInt 0; PEInt 2], v2)] => v1 == 3 # 4 /\ v2 == 1 # 4
+  | _ => False
+  end /\
+  MeasurementOutcomeDistribution_subdistribution_gen num_Q (edist [([1; 0]%nat, 1)]) [0; -1]%Z
+    = MeasurementOutcomeDistribution_subdistribution_gen num_Q (edist [([1; 0]%nat, 1)]) [0; 1]%Z /\
+  MeasurementOutcomeDistribution_init_gen num_Q [(PKTup [PEInt 1; PEInt (-1)], 1)] true = Raise RuntimeError.
+Proof. vm_compute. repeat split; reflexivity. Qed.
